@@ -115,7 +115,7 @@ func (sh *shared) feature(f string) { sh.feat[f]++ }
 
 func (sh *shared) tick() {
 	sh.steps++
-	if sh.steps > 200000 {
+	if sh.steps > 200000 && !(sh.p.Large && sh.steps <= 20000000) {
 		leave("step budget exceeded")
 	}
 }
@@ -126,7 +126,7 @@ func (sh *shared) execute(name string, out *writer, ctx map[string]Val, depth in
 	if t == nil {
 		fail("template not found: " + name)
 	}
-	if depth > 12 {
+	if depth > 12 && !(sh.p.Large && depth <= 500) {
 		leave("include depth")
 	}
 	e := &ev{sh: sh, out: out, name: name, scopes: []*scope{{vars: ctx}},
@@ -179,7 +179,7 @@ func (e *ev) runTpl(t *Tpl) {
 	if pt == nil {
 		fail("parent template not found: " + pname)
 	}
-	if len(e.chain) > 20 {
+	if len(e.chain) > 20 && !(e.sh.p.Large && len(e.chain) <= 500) {
 		leave("inheritance depth")
 	}
 	e.chain = append(e.chain, collectBlocks(pt))
@@ -931,7 +931,7 @@ func (e *ev) binary(x *E) Val {
 		if a > b {
 			leave("descending range")
 		}
-		if b-a > 60 {
+		if b-a > 60 && !(e.sh.p.Large && b-a <= 1<<20) {
 			leave("long range")
 		}
 		out := Val{K: KArr}
